@@ -24,7 +24,7 @@ ASSUMPTIONS = [
     "a to_onnx call that raises yields no model (counted as rejected; invalid naming requests must raise or yield distinct names)",
 ]
 
-DT = ["float32", "float32", "int32", "int8", "uint8", "bool", "float16", "int16", "uint32"]
+DT = ["float32", "float32", "int32", "int8", "uint8", "bool", "float16", "int16", "uint32", "int64"]
 SH = [(), (3,), (2, 3), ("B", 3), ("B", "N"), (2, "N"), (1, 4, 4, 3), ("B", 4, 4, 2)]
 OPS = ["neg", "dbl", "sum", "gt", "cast_i32", "cast_f16", "shape0", "argmax", "cplx", "cast_i8", "cast_u8", "cast_i64", "two_sided", "two_sided_relu"]
 
@@ -108,6 +108,8 @@ def sig_strategy():
         "nchw_in": st.booleans(),
         "nchw_out": st.booleans(),
         "param": st.booleans(),
+        # how each positional input is described to to_onnx: a ShapeDtypeStruct or a concrete example array (static shapes only)
+        "forms": st.lists(st.sampled_from(["sds", "sds", "array"]), min_size=3, max_size=3),
     })
 
 
@@ -130,6 +132,15 @@ def _init_tables():
 
 
 CLS = {"b": "bool", "i": "int", "u": "int", "f": "float", "c": "complex"}
+
+
+def _canon_name(dt, dbl):
+    """Name of the dtype JAX traces an argument of dtype `dt` as (int64 -> int32 without x64)."""
+    import jax
+    from vf import jaxutil
+
+    with jaxutil.x64(dbl):
+        return str(np.dtype(jax.dtypes.canonicalize_dtype(dt)))
 
 
 def check_sig(sig, acc=None):
@@ -181,7 +192,9 @@ def check_sig(sig, acc=None):
         kw["outputs_as_nchw"] = out4d[:1]
     if params:
         kw["input_params"] = params
-    specs = [jax.ShapeDtypeStruct(s, d) for s, d in ins]
+    forms = sig.get("forms") or ["sds"] * 3
+    specs = [np.zeros(s, d) if (forms[i % len(forms)] == "array" and all(isinstance(x, int) for x in s)) else jax.ShapeDtypeStruct(s, d)
+             for i, (s, d) in enumerate(ins)]
     try:
         m = jaxutil.to_onnx(fn, specs, enable_double_precision=dbl, **kw)
     except Exception as e:
@@ -215,7 +228,7 @@ def check_sig(sig, acc=None):
                 cur = ("in", o[1] % nin)
             elif o[0] == "dup":
                 cur = prev if prev is not None else ("in", 0)
-            elif o[0] == "op" and noop.get(o[1]) == str(ins[o[2] % nin][1]):
+            elif o[0] == "op" and noop.get(o[1]) == _canon_name(ins[o[2] % nin][1], dbl):
                 cur = ("in", o[2] % nin)  # a cast to the dtype the input already has returns the input itself
             else:
                 cur = ("out", oi)
@@ -258,6 +271,11 @@ def check_sig(sig, acc=None):
             P.append(("in_class", f"input {i}: elem_type {tt.elem_type} vs {dt}"))
         if dt.kind == "f" and not dbl and tt.elem_type == E.DOUBLE:
             P.append(("double_in_single", f"input {i}"))
+        if dt.kind in "iu" and tt.elem_type in BITS:
+            with jaxutil.x64(dbl):
+                canon = np.dtype(jax.dtypes.canonicalize_dtype(dt))  # what JAX itself traces the argument as
+            if tt.elem_type != E.INT64 and BITS[tt.elem_type] != canon.itemsize * 8:
+                P.append(("in_int_width", f"input {i}: elem_type {tt.elem_type} vs JAX {canon} (spec {dt}, {forms[i % len(forms)]})"))
     perm_out = {i: (0, 3, 1, 2) for i in kw.get("outputs_as_nchw", [])}
     for i, (v, e) in enumerate(zip(go, exp)):
         tt = v.type.tensor_type
@@ -293,6 +311,8 @@ def check_sig(sig, acc=None):
         feats.add("unused_input")
     if any(o[0] == "in" for o in sig["outs"]):
         feats.add("passthrough")
+    if any(f == "array" for f in (sig.get("forms") or [])[:nin]):
+        feats.add("example_array_input")
     if any(o[0] == "dup" for o in sig["outs"]):
         feats.add("duplicate")
     if any(o[0] == "const" for o in sig["outs"]):
